@@ -191,8 +191,19 @@ func (bs *blockState) instr(ins ssa.Instruction) {
 	case *ssa.Lookup:
 		bs.lookup(x)
 	case *ssa.Index:
+		if at, ok := x.X.Type().Underlying().(*types.Array); ok {
+			b := bs.val(x.X)
+			ix := bs.val(x.Index).C[0]
+			bs.assertG(fmt.Sprintf("index.%d", e.ordinal("index")), "bounds", and(app("<=", "0", ix), app("<", ix, fmt.Sprint(at.Len()))), "array index in range", x)
+			out := Val{T: at.Elem()}
+			for _, comp := range b.C {
+				out.C = append(out.C, app("select", comp, ix))
+			}
+			bs.setReg(x, out)
+			return
+		}
 		if !isString(x.X.Type()) {
-			unsupp("array Index")
+			unsupp("Index on %s", x.X.Type())
 		}
 		bs.strIndex(x, x.X, x.Index)
 	case *ssa.IndexAddr:
@@ -364,6 +375,13 @@ func (bs *blockState) load0(lv lvalue, ins ssa.Instruction) Val {
 	case "cell":
 		full := e.cellGet(bs.st, lv.alloc)
 		return Val{lv.typ, full.C[lv.lo:lv.hi]}
+	case "cellidx":
+		full := e.cellGet(bs.st, lv.alloc)
+		out := Val{T: lv.typ}
+		for _, comp := range full.C[lv.lo:lv.hi] {
+			out.C = append(out.C, app("select", comp, lv.idx))
+		}
+		return out
 	case "field":
 		bs.assertG(fmt.Sprintf("nil.%d", e.ordinal("nil")), "nil", not(eq(lv.obj, "0")), "nil dereference", ins)
 		bs.monAccess([]string{fieldKey(lv.stT, lv.fidx, 0)}, typeKey(lv.stT)+"."+lv.stT.Underlying().(*types.Struct).Field(lv.fidx).Name(), ins)
@@ -413,6 +431,13 @@ func (bs *blockState) storeTo(lv lvalue, v Val, ins ssa.Instruction) {
 	switch lv.kind {
 	case "cell":
 		e.cellSet(bs.st, lv.alloc, lv.lo, v)
+	case "cellidx":
+		full := e.cellGet(bs.st, lv.alloc)
+		nv := Val{T: full.T}
+		for j := lv.lo; j < lv.hi; j++ {
+			nv.C = append(nv.C, app("store", full.C[j], lv.idx, v.C[j-lv.lo]))
+		}
+		e.cellSet(bs.st, lv.alloc, lv.lo, nv)
 	case "field":
 		bs.assertG(fmt.Sprintf("nil.%d", e.ordinal("nil")), "nil", not(eq(lv.obj, "0")), "nil dereference", ins)
 		bs.monAccess([]string{fieldKey(lv.stT, lv.fidx, 0)}, typeKey(lv.stT)+"."+lv.stT.Underlying().(*types.Struct).Field(lv.fidx).Name(), ins)
